@@ -57,3 +57,29 @@ fn ieee_f5_ratio_small() {
     assert!(q >= 0.0 && q <= 1.0);
     if c == n { assert!(q == 1.0); }
 }
+
+// ---- facts used at the optimiser boundary of MleJaccard::get_mle (unit mle) ----
+#[kani::proof]
+fn ieee_ratio_nonneg() {
+    // c/n is never below 0 for unsigned c and n >= 1
+    let c: u32 = kani::any();
+    let n: u64 = kani::any();
+    kani::assume(n >= 1);
+    let q = c as f64 / n as f64;
+    assert!(!(q < 0.0));
+}
+#[kani::proof]
+fn ieee_min_facts() {
+    let a: f64 = kani::any();
+    let b: f64 = kani::any();
+    let lo: f64 = kani::any();
+    let m = a.min(b);
+    assert!(!(b < m));
+    if !(a < lo) && !(b < lo) { assert!(!(m < lo)); }
+}
+#[kani::proof]
+fn ieee_cmp_flip() {
+    let a: f64 = kani::any();
+    let b: f64 = kani::any();
+    assert!((a.partial_cmp(&b) == Some(core::cmp::Ordering::Less)) == (b.partial_cmp(&a) == Some(core::cmp::Ordering::Greater)));
+}
